@@ -28,8 +28,10 @@ JOB_TIMEOUT = 1500
 
 
 def plan(tier, seed):
-    return F.plan_jobs(tier, seed, "C05", quick_jobs=32, thorough_jobs=600,
+    jobs = F.plan_jobs(tier, seed, "C05", quick_jobs=32, thorough_jobs=600,
                        nmax=8)
+    from vf import rig_explore
+    return jobs + rig_explore.plan(tier, seed)
 
 
 def _mons(spec, cdir):
@@ -74,4 +76,7 @@ def _nontrivial(rig, spec, mons):
 
 
 def work(job, scratch):
+    if job["kind"] == "explore":
+        from vf import rig_explore
+        return rig_explore.work(job, scratch, props=("C05",))
     return F.generic_work(job, scratch, _mons, _nontrivial)
